@@ -748,9 +748,10 @@ func (v *PolicyVerifier) verifyRelativeForRef(ctx context.Context, firstEntry, l
 
 		entries = newEntryQueue
 
-		if v.persistentCacheEnabled && recordLastVerified {
-			v.persistentCache.SetLastVerifiedEntryForRef(fixEntry.RefName, fixEntry.GetNumber(), fixEntry.GetID())
-		}
+		// The fix entry is not recorded as the last verified entry in the
+		// persistent cache: it is accepted as a fix whoever signed it, but a
+		// verification that starts from it would judge it as a regular entry
+		_ = fixEntry
 	}
 
 	return nil
